@@ -1,10 +1,10 @@
 SPECIFICATION Spec
 CONSTANTS
-  Chunks <- LitChunks
-  MaxLen = 4
+  Chunks <- PrefixChunks
+  MaxLen = 5
   MinLen = 0
-  Variants = {"plain", "splice", "splice2", "bcmt", "bcmtnl", "lcmt"}
-  VarLen = 2
+  Variants = {"plain"}
+  VarLen = 3
   Mode = "alpha"
   PerturbChars = {}
   Devs = {"NoDigraphs", "NoUCNIdent", "NoUCNEscape"}
